@@ -274,7 +274,7 @@ def run(ctx, rep, tier):
             if p.end and p.end[0] == "raise":
                 continue
             v = p.valuation()
-            if not maybe_null_sat(v):
+            if not maybe_null(ctx, v):
                 continue
             evs = [e for e in events_of(fp.lines(p)) if e.kind != "COMMENT"]
             res = typestate(evs)
@@ -300,8 +300,10 @@ def run(ctx, rep, tier):
         v = p.valuation()
         if v.get("intexpr.ref.type == OutputStorageType.RAW") is True or v.get("intexpr.ref.type == OutputStorageType.STR") is False:
             continue
-        if v.get("F:ALLOCATE_STR_SPACE_DYNAMIC_ON_DEMAND") is False or v.get("F:ALLOCATE_STR_SPACE_DYNAMIC") is False:
-            continue   # pointer cannot be NULL (ON_DEMAND implies DYNAMIC)
+        v2 = {k: b for k, b in v.items() if k.startswith("F:")}
+        v2[f"{OUT}.type == OutputStorageType.STR"] = True
+        if not maybe_null(ctx, v2):
+            continue   # no template can have left the pointer NULL under these flags
         if v.get("F:UNSAFE_STRING_INDEXING") is True:
             continue   # unsafe indexing is only defined for in-range indices of an existing buffer (property quantifier)
         guarded = re.search(r"state->c\.\[\[intexpr\.ref\.name\]\]\s*(!= NULL|&&)|\(state->c\.\[\[intexpr\.ref\.name\]\]\)\s*&&|!state->c\.", txt) is not None
@@ -683,8 +685,98 @@ def check_memcpy_site(rep, fn, what, evs, v, path, model):
     return n
 
 
+def null_producers(ctx):
+    """Where a heap string's pointer can become NULL, read off the templates themselves (not a frozen formula over flags):
+    (never-allocated) loop rounds of start() that store NULL into a string member; (freed) paths of any action template that free / nullify it.
+    Each as the valuation (flag atoms, `default_value is None`, is_start) under which the template does so."""
+    cached = getattr(ctx, "_null_producers", None)
+    if cached is not None:
+        return cached
+    from ..emit import LoopBlock
+    E = ctx.emit
+    never, freed = [], []
+    fp = E.enumerate("CodegenCtx._generate_start_implementation")
+    for p in fp.paths:
+        pv = {k: b for k, b in p.valuation().items() if k.startswith("F:")}
+        for it in fp.lines(p):
+            if not isinstance(it, LoopBlock):
+                continue
+            for body in it.bodies:
+                evs = [e.kind for e in events_of(body[1])]
+                if "NULLIFY" in evs and "MALLOC" not in evs:
+                    w = dict(pv)
+                    for k, b in body[0].items():
+                        if k.startswith("F:"):
+                            w[k] = b
+                        elif k.endswith(".default_value is None"):
+                            w["default_value is None"] = b
+                    if w not in never:
+                        never.append(w)
+    for cl in ctx.model.concrete_subclasses("Action"):
+        if cl == "Action":
+            continue
+        fpa = E.enumerate(ACT, classes={"action": cl})
+        for p in fpa.paths:
+            if p.end and p.end[0] == "raise":
+                continue
+            evs = [e.kind for e in events_of(fpa.lines(p))]
+            if "FREE" in evs or "NULLIFY" in evs:
+                w = {k: b for k, b in p.valuation().items() if k.startswith("F:") or k == "is_start"}
+                if w not in freed:
+                    freed.append(w)
+    if not never and not freed:
+        raise AnalysisError("C03.e: no template leaves a string pointer NULL any more (start() / delete): the typestate rule has lost its producers")
+    ctx._null_producers = (never, freed)
+    return ctx._null_producers
+
+
+def _flags_feasible(ctx, atoms):
+    """No flag that is on implies one that is off (flag table closure)."""
+    ft = ctx.flags
+    on = {k[2:] for k, b in atoms.items() if k.startswith("F:") and b is True}
+    off = {k[2:] for k, b in atoms.items() if k.startswith("F:") and b is False}
+    for f in on:
+        try:
+            if set(ft.implied_closure(f)) & off:
+                return False
+        except Exception:
+            pass
+    return True
+
+
+def maybe_null(ctx, v):
+    """Can `state->c.<out>` be NULL when this template path runs? Yes iff the output is a heap string and some producer's valuation is compatible
+    with the path's (same truth value on shared flag atoms, feasible under the flag table)."""
+    if v.get(f"{OUT}.type == OutputStorageType.STR") is False or v.get(f"{OUT}.type == OutputStorageType.RAW") is True:
+        return False
+    if v.get("F:ALLOCATE_STR_SPACE_DYNAMIC") is False:
+        return False        # in-struct arrays are never pointers (declaration template, C03.h / C11.h)
+    never, freed = null_producers(ctx)
+    vf = {k: b for k, b in v.items() if k.startswith("F:")}
+
+    def compatible(w):
+        for k, b in w.items():
+            if k.startswith("F:") and k in vf and vf[k] != b:
+                return False
+        merged = dict(vf)
+        merged.update({k: b for k, b in w.items() if k.startswith("F:")})
+        merged.setdefault("F:ALLOCATE_STR_SPACE_DYNAMIC", True)
+        return _flags_feasible(ctx, merged)
+    for w in never:
+        dn = w.get("default_value is None")
+        if dn is not None and v.get(f"{OUT}.default_value is None") is (not dn):
+            continue
+        if compatible(w):
+            return True
+    if v.get("is_start") is not True:       # nothing has been freed yet when start() runs its actions
+        for w in freed:
+            if compatible(w):
+                return True
+    return False
+
+
 def maybe_null_sat(v):
-    """Is 'state->c.<out> may be NULL at template entry' satisfiable under this valuation?"""
+    """(superseded by maybe_null: kept for the null_core key) Is 'state->c.<out> may be NULL at template entry' satisfiable under this valuation?"""
     if v.get("F:ALLOCATE_STR_SPACE_DYNAMIC_ON_DEMAND") is False:
         return False
     if v.get("F:ALLOCATE_STR_SPACE_DYNAMIC") is False:
